@@ -28,6 +28,64 @@ FORMATS = [
 ]
 
 
+NUMERIC = ("%Y", "%y", "%m", "%d", "%H", "%I", "%M", "%S", "%f")
+
+
+def rand_format(rng):
+    """a format of DISTINCT directives in random order with random literal separators (the statement's "every
+    strptime-style format made of distinct directives"); %I always with %p, %p never without %I"""
+    ds = []
+    y = rng.choice([None, "%Y", "%Y", "%y"])
+    m = rng.choice([None, "%m", "%m", "%B", "%b"])
+    d = rng.choice([None, "%d", "%d"])
+    if y:
+        ds.append(y)
+    if m:
+        ds.append(m)
+    if d:
+        ds.append(d)
+    if rng.random() < 0.15 and (y and m and d):
+        ds.append(rng.choice(["%A", "%a"]))
+    t = rng.random()
+    tds = []
+    if t < 0.7:
+        tds.append(rng.choice(["%H", "%H", "%I"]))
+        if rng.random() < 0.85:
+            tds.append("%M")
+            if rng.random() < 0.7:
+                tds.append("%S")
+        if rng.random() < 0.45:
+            tds.append("%f")
+        if tds[0] == "%I":
+            tds.append("%p")
+    elif t < 0.8:
+        tds.append("%f")
+    if rng.random() < 0.6:        # usual layout: date part and time part contiguous
+        rng.shuffle(ds)
+        if rng.random() < 0.3:
+            rng.shuffle(tds)
+        ds = ds + tds if rng.random() < 0.7 else tds + ds
+    else:
+        ds = ds + tds
+        rng.shuffle(ds)
+    if not ds:
+        ds = ["%Y"]
+    out = [ds[0]]
+    for a, b in zip(ds, ds[1:]):
+        seps = [" ", " ", "-", "/", ":", ",", ", ", "T", " at ", "_", "  |", ";"]
+        if a in NUMERIC:
+            seps += [".", ". "]
+        if a in NUMERIC and b in NUMERIC:
+            seps += ["", ""]
+        if b == "%p" and a in NUMERIC:
+            seps += ["", " "]
+        sep = rng.choice(seps)
+        if sep in ("T",) and (a not in NUMERIC or b not in NUMERIC):
+            sep = " "
+        out.append(sep + b)
+    return "".join(out)
+
+
 def flags(fmt):
     return {"year": "%Y" in fmt or "%y" in fmt, "month": any(x in fmt for x in ("%m", "%b", "%B")), "day": "%d" in fmt,
             "time": "%H" in fmt or "%I" in fmt, "min": "%M" in fmt, "sec": "%S" in fmt, "us": "%f" in fmt}
@@ -108,6 +166,12 @@ def run(ctx):
         for fmt in FORMATS:
             for _ in range(n_en):
                 add(fmt, rand_dt(), en, "en", [])
+        seen_f = set(FORMATS)
+        for _ in range(600 if ctx.quick() else 20000):      # generated formats of distinct directives
+            fmt = rand_format(rng)
+            for _ in range(1 if fmt in seen_f else 3):
+                add(fmt, rand_dt(), en, "en", [])
+            seen_f.add(fmt)
         # localized names: every language, its first listed name per month / weekday (quick: 3 months per language)
         named = [f for f in FORMATS if any(x in f for x in ("%B", "%b", "%A", "%a"))]
         for lang, v in sorted(vocab.items()):
@@ -163,7 +227,7 @@ def run(ctx):
         "states": mc.distinct, "transitions": mc.generated, "traces_validated_against_impl": len(cases) - sp,
         "evaluations": len(cases), "distinct_nontrivial": len({(c["s"], c["fmt"], c["lang"]) for c, r in zip(cases, results) if r["out"]}),
         "rule": "case = (format, datetime, language whose names are used, preferences); non-trivial = distinct call returning a datetime",
-        "exhaustive": False, "formats": len(FORMATS), "languages": len({c["lang"] for c in cases}),
+        "exhaustive": False, "formats": len({c["fmt"] for c in cases}), "languages": len({c["lang"] for c in cases}),
         "samples": [{"string": c["s"], "format": c["fmt"], "language": c["lang"], "observed": r["out"], "period": r["period"]}
                     for c, r in list(zip(cases, results))[:: max(1, len(cases) // 6)]][:6],
     }
